@@ -2,6 +2,23 @@
 import itertools
 import z3
 
+# A trigger z3 rejects ("invalid pattern": after its construction-time simplification the pattern no longer mentions every
+# bound variable) only guides instantiation; dropping it affects completeness, never soundness.  No quantifier construction
+# may crash the checker, whatever shape the analysed code gives the terms.
+_z3_forall = z3.ForAll
+
+
+def _forall_tolerant(vs, body, weight=1, qid="", skid="", patterns=[], no_patterns=[]):
+    try:
+        return _z3_forall(vs, body, weight, qid, skid, patterns, no_patterns)
+    except z3.Z3Exception:
+        if not patterns:
+            raise
+        return _z3_forall(vs, body, weight, qid, skid, [], no_patterns)
+
+
+z3.ForAll = _forall_tolerant
+
 ValSort = z3.DeclareSort('Val')          # uninterpreted payload (copied-only data)
 I, R, B = z3.IntSort(), z3.RealSort(), z3.BoolSort()
 
